@@ -15,7 +15,7 @@ What is mirrored (containers.py, after the `fix:` commits on branch fix-C12):
 * transform.py       : `__setitem__/__setattr__/reset` delegation, the inner `BC.params.values = …`
                        re-sync performed by forward/backward/jacobian of the BoxCox1lam/1nu/2sym
                        classes; sampling / prior / printing touch nothing                          → `tstep`
-The getters `values/mins/maxs/defaults` return the internal array itself: an array is a `Ref`.
+The getters `values/mins/maxs/defaults` return the internal array itself: an array is a `Nat`.
 -/
 namespace HydroVerif.C12
 
@@ -93,19 +93,20 @@ def nodupB : List String → Bool
   | a :: t => !t.contains a && nodupB t
 
 /-! ### the array store -/
+/-- an array reference is a natural number (allocation order) -/
 abbrev Ref := Nat
 
 /-- every numpy array ever allocated; `next` is the first unused reference -/
 structure Store (α : Type) where
-  cells : Ref → List (XR α)
-  next : Ref
+  cells : Nat → List (XR α)
+  next : Nat
 
 def Store.empty : Store α := ⟨fun _ => [], 0⟩
 /-- a fresh array (numpy `copy`, `astype`, `clip`, … all allocate) -/
-def Store.alloc (s : Store α) (a : List (XR α)) : Store α × Ref :=
+def Store.alloc (s : Store α) (a : List (XR α)) : Store α × Nat :=
   (⟨fun r => if r = s.next then a else s.cells r, s.next + 1⟩, s.next)
 /-- `arr[i] = x` on the array behind `r` — seen through every alias of `r` -/
-def Store.write (s : Store α) (r : Ref) (i : Nat) (x : XR α) : Store α :=
+def Store.write (s : Store α) (r : Nat) (i : Nat) (x : XR α) : Store α :=
   ⟨fun r' => if r' = r then (s.cells r).set i x else s.cells r', s.next⟩
 
 inductive Err
@@ -120,10 +121,10 @@ inductive Out
 writes into `_names`), the four float arrays are references into the store -/
 structure Vec where
   names : List String
-  values : Ref
-  mins : Ref
-  maxs : Ref
-  defaults : Ref
+  values : Nat
+  mins : Nat
+  maxs : Nat
+  defaults : Nat
   hit : Bool
   checkBounds : Bool
   checkHit : Bool
@@ -131,7 +132,7 @@ structure Vec where
   deriving DecidableEq, Repr
 
 def Vec.n (v : Vec) : Nat := v.names.length
-def Vec.refs (v : Vec) : List Ref := [v.values, v.mins, v.maxs, v.defaults]
+def Vec.refs (v : Vec) : List Nat := [v.values, v.mins, v.maxs, v.defaults]
 
 /-! ### `__checkvalues__` -/
 /-- the two guards, in the order of the code -/
@@ -143,36 +144,43 @@ def clipAll (val lo hi : List (XR α)) : List (XR α) := map3 XR.clipNp val lo h
 def hitAll (eps : α) (val lo hi : List (XR α)) : Bool := any3 (XR.outsideEps eps) val lo hi
 
 /-! ### constructor -/
+/-- `mins`: default −∞, else `__checkvalues__(mins, False)` (clipping against (−∞, +∞) changes nothing) -/
+def ctorMins (an : Bool) (n : Nat) : Option (List (XR α)) → Except Err (List (XR α))
+  | none => .ok (List.replicate n .ninf)
+  | some m => match reject? an n m with
+    | some e => .error e
+    | none => .ok (clipAll m (List.replicate n .ninf) (List.replicate n .pinf))
+
+/-- `maxs`: default +∞, else `__checkvalues__(maxs, True)` against `[mins, +∞]`; a hit is an error -/
+def ctorMaxs (eps : α) (an : Bool) (n : Nat) (lo : List (XR α)) : Option (List (XR α)) → Except Err (List (XR α))
+  | none => .ok (List.replicate n .pinf)
+  | some m => match reject? an n m with
+    | some e => .error e
+    | none =>
+      if hitAll eps m lo (List.replicate n .pinf) then .error .maxsOutside
+      else .ok (clipAll m lo (List.replicate n .pinf))
+
+/-- `defaults`: default `np.clip(zeros, mins, maxs)`, else `__checkvalues__(defaults, True)`; a hit is an error -/
+def ctorDefaults [OfNat α 0] (eps : α) (an : Bool) (n : Nat) (lo hi : List (XR α)) :
+    Option (List (XR α)) → Except Err (List (XR α))
+  | none => .ok (clipAll (List.replicate n (.fin 0)) lo hi)
+  | some d => match reject? an n d with
+    | some e => .error e
+    | none => if hitAll eps d lo hi then .error .defaultsOutside else .ok (clipAll d lo hi)
+
 /-- validation part of `Vector.__init__`: the (mins, maxs, defaults) arrays it ends up holding -/
 def mkArrays [OfNat α 0] (eps : α) (names : List String) (defaults mins maxs : Option (List (XR α)))
     (cb ch an : Bool) : Except Err (List (XR α) × List (XR α) × List (XR α)) :=
   let n := names.length
   if ch && !cb then .error .flagConflict
   else if !nodupB names then .error .dupNames
-  else
-    let lo0 : List (XR α) := List.replicate n .ninf
-    let hi0 : List (XR α) := List.replicate n .pinf
-    let lo? : Except Err (List (XR α)) := match mins with
-      | none => .ok lo0
-      | some m => match reject? an n m with
-        | some e => .error e
-        | none => .ok (clipAll m lo0 hi0)
-    match lo? with
+  else match ctorMins an n mins with
     | .error e => .error e
-    | .ok lo =>
-      let hi? : Except Err (List (XR α)) := match maxs with
-        | none => .ok hi0
-        | some m => match reject? an n m with
-          | some e => .error e
-          | none => if hitAll eps m lo hi0 then .error .maxsOutside else .ok (clipAll m lo hi0)
-      match hi? with
+    | .ok lo => match ctorMaxs eps an n lo maxs with
       | .error e => .error e
-      | .ok hi =>
-        match defaults with
-        | none => .ok (lo, hi, clipAll (List.replicate n (.fin 0)) lo hi)
-        | some d => match reject? an n d with
-          | some e => .error e
-          | none => if hitAll eps d lo hi then .error .defaultsOutside else .ok (lo, hi, clipAll d lo hi)
+      | .ok hi => match ctorDefaults eps an n lo hi defaults with
+        | .error e => .error e
+        | .ok d => .ok (lo, hi, d)
 
 /-- allocation part: four fresh arrays, `_values = _defaults.copy()`, hit flag off -/
 def mkFrom (s : Store α) (names : List String) (lo hi d : List (XR α)) (cb ch an : Bool) : Store α × Vec :=
